@@ -160,7 +160,15 @@ def r05_3(chk):
                 root = root.value
             if isinstance(root, ast.Attribute) and unparse(root) in ("self.orbit", "self._orbit"):
                 bad.append(unparse(t))
-        chk.inst("R05.3", f"{f.ref}::initial-orbit-untouched", not bad, "no store through self.orbit" if not bad else f"writes {bad}", loc(f, f.node))
+        from ..ownership import Fresh, stores_through
+        fr = Fresh(f, chk.repo)
+        for text, root_, node in stores_through(f, fr.flow):
+            if isinstance(root_, ast.Name) and root_.id == "self":
+                continue
+            vals = fr.classify(root_)
+            if any(v != "fresh" and (v[0] == "alias" or (v[0] == "view" and text.endswith("]"))) for v in vals):
+                bad.append(f"{text} (through {sorted(v for v in vals if v != 'fresh')})")
+        chk.inst("R05.3", f"{f.ref}::initial-orbit-untouched", not bad, "no store reaches the snapshot (directly, through an alias, or through a view of its buffer)" if not bad else f"writes {bad}", loc(f, f.node))
         rets = [s for s in ast.walk(f.node) if isinstance(s, ast.Return)]
         ok = len(rets) == 1 and unparse(rets[0].value) == "new.copy(form='cartesian')"
         chk.inst("R05.3", f"{f.ref}::returns", ok, "returns a fresh cartesian copy" if ok else "changed", loc(f, f.node))
